@@ -16,12 +16,16 @@ TNext ==
        \/ e.a = "SubBegin" /\ \E r \in SubBegin(s, e.id, e.g) : Obs(e, r) /\ s' = r.s
        \/ e.a = "UnsubBegin" /\ \E r \in UnsubBegin(s, e.id, e.g) : Obs(e, r) /\ s' = r.s
        \/ e.a = "End" /\ s.calls # <<>> /\ Head(s.calls).id = e.id /\ Obs(e, End(s, e.ans)) /\ s' = End(s, e.ans).s
+       \* start-up scans the table again (nothing in flight): the view is rebuilt from the table
+       \/ e.a = "Rescan" /\ s.calls = <<>> /\ s' = MC0(ToTbl(e.tbl), N)
        \* quiet: the host's view probed behaviourally (which groups subscribe() takes as already there, how many fresh ones fit)
        \/ e.a = "Probe" /\ s.calls = <<>> /\ {e.subs[i] : i \in 1 .. Len(e.subs)} = DOMAIN s.sub /\ e.free = Cardinality(s.avail) /\ UNCHANGED s
   /\ l' = l + 1 /\ UNCHANGED tid
 TSpec == TInit /\ [][TNext]_tvars
 Owned == IndexOwnedOnce(s, N)
 Mirror == QuietMirror(s, N)
+(* the host never programs a group into two entries *)
+Unique == \A i, j \in 0 .. N - 1 : (i # j /\ s.tbl[i] # Free) => s.tbl[i] # s.tbl[j]
 Progress == TLCSet(1, [TLCGet(1) EXCEPT ![tid] = IF @ < l THEN l ELSE @])
 Post == /\ PrintT(<<"BVPROGRESS", TLCGet(1)>>)
         /\ \A i \in 1 .. Len(Traces) : TLCGet(1)[i] = Len(Traces[i]) + 1
